@@ -77,7 +77,6 @@ namespace Givaro {
 
     Integer powmod(const Integer& n, const Integer& e, const Integer& m)
     {
-        if (e == 0) return Integer::one;
         if (e < 0)  return Integer::zero;
         Integer Res;
         return powmod(Res, n, e, m);
@@ -95,7 +94,6 @@ namespace Givaro {
 
     Integer powmod(const Integer& n, const uint64_t p, const Integer& m)
     {
-        if (p == 0) return Integer::one;
         Integer Res;
         return powmod(Res,n,p,m);
     }
